@@ -3,15 +3,16 @@
 # property against a patched scratch copy; expected: rc 0 everywhere. Writes refactors/RESULTS.md.
 cd "$(dirname "$0")/.."
 list="$*"; [ -z "$list" ] && list=$(ls refactors | grep '^C')
-: > /tmp/refmatrix.txt
+out_file=${REFOUT:-/tmp/refmatrix.txt}
+: > $out_file
 for r in $list; do
   id=${r%%-*}
   pf=refactors/$r/patch-rebased.diff; [ -f $pf ] || pf=refactors/$r/patch.diff
   out=$(timeout 1200 tools/try_patch.sh $pf $id 2>&1); rc=$(echo "$out" | tail -1 | sed 's/.*rc=//')
-  echo "$r $id rc=$rc viol=$(echo "$out" | grep -c '^VIOLATION') mach=$(echo "$out" | grep -c MACHINERY)" | tee -a /tmp/refmatrix.txt
+  echo "$r $id rc=$rc viol=$(echo "$out" | grep -c '^VIOLATION') mach=$(echo "$out" | grep -c MACHINERY)" | tee -a $out_file
 done
 {
   echo "# Behaviour-preserving refactorings vs quick checks (expected rc=0)"; echo
   echo "| refactoring | check | result |"; echo "|---|---|---|"
-  awk '{print "| "$1" | "$2" | "$3" "$4" "$5" |"}' /tmp/refmatrix.txt
-} > refactors/RESULTS.md
+  awk '{print "| "$1" | "$2" | "$3" "$4" "$5" |"}' $out_file
+} > ${REFRESULTS:-refactors/RESULTS.md}
